@@ -3,8 +3,9 @@
    Output line:  <model observation> TAB <specification verdicts on the IMPLEMENTATION's observation>
      model observation = the arenas produced by the extracted [from_graph] in the harness' arena syntax,
                          or PANIC:<cause> / ERR:<cause> / OOF
-     verdicts          = lists=b trees=b/n walk=b ids=b res=b uses=b   (b in 0/1, n = items whose tree is in the
-                         resource-free fragment), or "-" when the implementation did not produce arenas *)
+     verdicts          = lists=b trees=b/n walk=b ids=b res=b uses=b wt=b f1=b  (b in 0/1, n = items whose tree is in the
+                         resource-free fragment; wt = the graph is well-typed; f1 = the graph-level predicate of finding F1),
+                         only wt and f1 when the implementation did not produce arenas *)
 open Model
 open Common
 
@@ -295,10 +296,10 @@ let verdicts (g : vgraph) (t : types) (p : package) : string =
     | Some evs ->
       let ids = ids_one_to_one_b evs in
       let res = match res_pairs ufuel g t (maps_of evs) with Some l -> resources_agree_b l | None -> false in
-      let uses = match expected_uses hfuel g (sites_of evs) [] [] with Some l -> uses_agree_b t l | None -> false in
+      let uses = match expected_uses hfuel g (sites_of evs) with Some l -> uses_agree_b t l | None -> false in
       (true, ids, res, uses) in
-  Printf.sprintf "lists=%s trees=%s/%d walk=%s ids=%s res=%s uses=%s" (b01 lists) (b01 !trees) !checked (b01 walk_ok)
-    (b01 ids) (b01 res) (b01 uses)
+  Printf.sprintf "lists=%s trees=%s/%d walk=%s ids=%s res=%s uses=%s wt=%s" (b01 lists) (b01 !trees) !checked (b01 walk_ok)
+    (b01 ids) (b01 res) (b01 uses) (b01 (wt_graph_b g)) ^ " f1=" ^ b01 (shares_created_b g)
 
 let handle = function
   | ["conv"; graph; impl] ->
@@ -308,7 +309,8 @@ let handle = function
       if String.length impl >= 2 && (String.sub impl 0 2 = "D " || String.sub impl 0 2 = "R " || String.sub impl 0 2 = "F "
                                      || String.sub impl 0 2 = "I " || String.sub impl 0 2 = "W " || String.sub impl 0 2 = "M "
                                      || String.sub impl 0 2 = "P ")
-      then (let (t, p) = parse_arenas impl in verdicts g t p) else "-" in
+      then (let (t, p) = parse_arenas impl in verdicts g t p)
+      else "wt=" ^ b01 (wt_graph_b g) ^ " f1=" ^ b01 (shares_created_b g) in
     m ^ "\t" ^ v
   | _ -> "BAD-LINE"
 
